@@ -59,6 +59,13 @@ void verif_assume_concrete(int c);
 #define VERIF_ASSERT(c, msg) verif_assert_concrete((c) != 0, msg)
 #define VERIF_ASSUME(c) verif_assume_concrete((c) != 0)
 #endif
+/* encoding-internal obligations (no counterpart in the native run: not part of the event hash) */
+#ifdef __CPROVER__
+#define VERIF_ENC_ASSERT(c, msg) __CPROVER_assert((c), msg)
+#else
+void verif_enc_assert_concrete(int c, const char* msg);
+#define VERIF_ENC_ASSERT(c, msg) verif_enc_assert_concrete((c) != 0, msg)
+#endif
 #define VERIF_UNREACHABLE()                                                                                                                          \
     do {                                                                                                                                             \
         VERIF_ASSERT(0, "IR unreachable reached");                                                                                                   \
